@@ -176,6 +176,7 @@ def run(repo='/repo', tier='quick'):
         if len(tests) != 1:
             raise AnalysisBroken('C02.d: expected one `%s != NULL` test in %s' % (ex, pn))
         npth, bad = 0, None
+        badroom = None
         for atoms, events, end, seq in P.enum_paths_seq(f, (f.blocks[tests[0]]['succs'][0], -1), max_paths=50000):
             if end[0] not in ('return', 'exit'):
                 continue
@@ -197,8 +198,22 @@ def run(repo='/repo', tier='quick'):
                     adds.append('SEP' if a1.get('k') == 'str' and a1.get('v') == ', ' else 'VALUE' if P.K(a1).endswith('->value') else 'OTHER')
             if adds[:2] != ['SEP', 'VALUE'] or len(adds) != 2:
                 bad = (adds, facts[-3:])
+            # the room made for the merge is the old value, the separator and the new value (the appends that follow are the
+            # no-expand kind: they silently copy only what fits)
+            for x in seq:
+                if x[0] != 'stmt':
+                    continue
+                for c in nodes(x[3], lambda y: y.get('k') == 'call' and y.get('callee') == 'bstr_expand'):
+                    from . import c01j as _c01j
+                    L = _c01j.lin(f, c['args'][1])
+                    terms = {k_: v_ for k_, v_ in (L or {}).items() if k_ != ''}
+                    okroom = L is not None and L.get('', 0) == 2 and len(terms) == 2 and all(v_ == 1 for v_ in terms.values()) and any(ex in k_ for k_ in terms) and any(ex not in k_ for k_ in terms)
+                    if not okroom:
+                        badroom = (P.K(c['args'][1]), c['loc'])
         res.check(bad is None and npth > 0, 'C02.d', pn + ':repetition-merge', 'all %d merge paths append ", " and then the new value' % npth,
                   'a repeated header field is not combined as <existing>, <new> on a path (appends %s, guards %s): the reported value loses or garbles a field that was on the wire' % (bad or ('', ''))[:2], f.loc)
+        res.check(badroom is None, 'C02.d', pn + ':room-for-the-merge', 'bstr_expand makes room for the old value, 2 separator bytes and the new value',
+                  'the room made for the merged value is `%s`, not len(old) + 2 + len(new): the no-expand appends that follow copy only what fits, so the merged value silently loses its last bytes (`Transfer-Encoding: gzip` + `chunked` becomes `gzip, chunk`)' % (badroom or ('',))[0], (badroom or ('', f.loc))[1])
     res.assumptions += ['equality of the reported strings with the wire is a statement about values and is not decided', 'the personality-specific request line parser (apache_2_2) shares the generic splitter',
                         'hybrid-mode setters (htp_tx_req_set_* / htp_tx_res_set_*) take the strings from the application and are outside the rule']
     from . import mirror
@@ -210,4 +225,5 @@ def run(repo='/repo', tier='quick'):
                   'fields that change together: every server personality sets all four parser slots (request line, request header, response line, response header); a personality that leaves one unset keeps the previous personality\'s parser for that part')
     from . import lockstep
     lockstep.run(db, res, 'C02.h')
+    lockstep.run_single_step(db, res, 'C02.i', ['htp_parse_request_header_generic', 'htp_parse_response_header_generic', 'htp_parse_request_line_generic_ex', 'htp_parse_response_line_generic', 'htp_process_request_header_generic', 'htp_process_response_header_generic', 'htp_parse_ct_header', 'htp_parse_cookies_v0', 'htp_parse_single_cookie_v0', 'htp_parse_authorization_digest', 'htp_parse_authorization_basic', 'htp_parse_authorization', 'htp_extract_quoted_string_as_bstr', 'htp_parse_content_length', 'htp_parse_chunked_length', 'htp_parse_positive_integer_whitespace'])
     return res
